@@ -235,7 +235,7 @@ pub fn check_parent_after_mut(buf: &[U8], l: usize, t: usize, vw: usize, vh: usi
 macro_rules! c14_case {
     ($name:ident, ro, $fn:ident, $parts:expr, $l:expr, $t:expr, $vw:expr, $vh:expr, |$px:ident| $mk:block) => {
         #[kani::proof]
-        #[kani::unwind(8)]
+        #[kani::unwind(7)]
         pub fn $name() {
             let mut $px = tagged_parent();
             let view = $mk;
@@ -244,37 +244,37 @@ macro_rules! c14_case {
     };
 }
 
-// @h c14_h_typed_ref_p1 | prop=C14 | tier=quick | t=1500 | mem=12 | flags=--no-assertion-reach-checks --no-memory-safety-checks --no-overflow-checks | enc=TypedImageRef::split_by_height (slice specialisation), TypedImageRef::iter_rows | bounds=symbolic: start 0..=8 and size 1..=8 of the band (invalid ones included); enumerated: parts=1, TypedImageRef 4x5; tagged pixels; unwind 8
+// @h c14_h_typed_ref_p1 | prop=C14 | tier=quick | t=1500 | mem=12 | flags=--no-assertion-reach-checks --no-memory-safety-checks --no-overflow-checks | enc=TypedImageRef::split_by_height (slice specialisation), TypedImageRef::iter_rows | bounds=symbolic: start 0..=8 and size 1..=8 of the band (invalid ones included); enumerated: parts=1, TypedImageRef 4x5; tagged pixels; unwind 7
 c14_case!(c14_h_typed_ref_p1, ro, check_split_by_height, 1, 0, 0, 4, 5, |px| { TypedImageRef::new(PW as u32, PH as u32, &px).unwrap() });
-// @h c14_h_typed_ref_p2 | prop=C14 | tier=quick | t=1500 | mem=12 | flags=--no-assertion-reach-checks --no-memory-safety-checks --no-overflow-checks | enc=TypedImageRef::split_by_height (slice specialisation), TypedImageRef::iter_rows | bounds=symbolic: start 0..=8 and size 1..=8 of the band (invalid ones included); enumerated: parts=2, TypedImageRef 4x5; tagged pixels; unwind 8
+// @h c14_h_typed_ref_p2 | prop=C14 | tier=quick | t=1500 | mem=12 | flags=--no-assertion-reach-checks --no-memory-safety-checks --no-overflow-checks | enc=TypedImageRef::split_by_height (slice specialisation), TypedImageRef::iter_rows | bounds=symbolic: start 0..=8 and size 1..=8 of the band (invalid ones included); enumerated: parts=2, TypedImageRef 4x5; tagged pixels; unwind 7
 c14_case!(c14_h_typed_ref_p2, ro, check_split_by_height, 2, 0, 0, 4, 5, |px| { TypedImageRef::new(PW as u32, PH as u32, &px).unwrap() });
-// @h c14_h_typed_ref_p3 | prop=C14 | tier=thorough | t=1500 | mem=12 | flags=--no-assertion-reach-checks --no-memory-safety-checks --no-overflow-checks | enc=TypedImageRef::split_by_height (slice specialisation), TypedImageRef::iter_rows | bounds=symbolic: start 0..=8 and size 1..=8 of the band (invalid ones included); enumerated: parts=3, TypedImageRef 4x5; tagged pixels; unwind 8
+// @h c14_h_typed_ref_p3 | prop=C14 | tier=thorough | t=1500 | mem=12 | flags=--no-assertion-reach-checks --no-memory-safety-checks --no-overflow-checks | enc=TypedImageRef::split_by_height (slice specialisation), TypedImageRef::iter_rows | bounds=symbolic: start 0..=8 and size 1..=8 of the band (invalid ones included); enumerated: parts=3, TypedImageRef 4x5; tagged pixels; unwind 7
 c14_case!(c14_h_typed_ref_p3, ro, check_split_by_height, 3, 0, 0, 4, 5, |px| { TypedImageRef::new(PW as u32, PH as u32, &px).unwrap() });
-// @h c14_h_typed_ref_p4 | prop=C14 | tier=quick | t=1500 | mem=12 | flags=--no-assertion-reach-checks --no-memory-safety-checks --no-overflow-checks | enc=TypedImageRef::split_by_height (slice specialisation), TypedImageRef::iter_rows | bounds=symbolic: start 0..=8 and size 1..=8 of the band (invalid ones included); enumerated: parts=4, TypedImageRef 4x5; tagged pixels; unwind 8
+// @h c14_h_typed_ref_p4 | prop=C14 | tier=quick | t=1500 | mem=12 | flags=--no-assertion-reach-checks --no-memory-safety-checks --no-overflow-checks | enc=TypedImageRef::split_by_height (slice specialisation), TypedImageRef::iter_rows | bounds=symbolic: start 0..=8 and size 1..=8 of the band (invalid ones included); enumerated: parts=4, TypedImageRef 4x5; tagged pixels; unwind 7
 c14_case!(c14_h_typed_ref_p4, ro, check_split_by_height, 4, 0, 0, 4, 5, |px| { TypedImageRef::new(PW as u32, PH as u32, &px).unwrap() });
-// @h c14_h_typed_ref_p5 | prop=C14 | tier=thorough | t=1500 | mem=12 | flags=--no-assertion-reach-checks --no-memory-safety-checks --no-overflow-checks | enc=TypedImageRef::split_by_height (slice specialisation), TypedImageRef::iter_rows | bounds=symbolic: start 0..=8 and size 1..=8 of the band (invalid ones included); enumerated: parts=5, TypedImageRef 4x5; tagged pixels; unwind 8
+// @h c14_h_typed_ref_p5 | prop=C14 | tier=thorough | t=1500 | mem=12 | flags=--no-assertion-reach-checks --no-memory-safety-checks --no-overflow-checks | enc=TypedImageRef::split_by_height (slice specialisation), TypedImageRef::iter_rows | bounds=symbolic: start 0..=8 and size 1..=8 of the band (invalid ones included); enumerated: parts=5, TypedImageRef 4x5; tagged pixels; unwind 7
 c14_case!(c14_h_typed_ref_p5, ro, check_split_by_height, 5, 0, 0, 4, 5, |px| { TypedImageRef::new(PW as u32, PH as u32, &px).unwrap() });
-// @h c14_h_typed_ref_p7 | prop=C14 | tier=thorough | t=1500 | mem=12 | flags=--no-assertion-reach-checks --no-memory-safety-checks --no-overflow-checks | enc=TypedImageRef::split_by_height (slice specialisation), TypedImageRef::iter_rows | bounds=symbolic: start 0..=8 and size 1..=8 of the band (invalid ones included); enumerated: parts=7, TypedImageRef 4x5; tagged pixels; unwind 8
+// @h c14_h_typed_ref_p7 | prop=C14 | tier=thorough | t=1500 | mem=12 | flags=--no-assertion-reach-checks --no-memory-safety-checks --no-overflow-checks | enc=TypedImageRef::split_by_height (slice specialisation), TypedImageRef::iter_rows | bounds=symbolic: start 0..=8 and size 1..=8 of the band (invalid ones included); enumerated: parts=7, TypedImageRef 4x5; tagged pixels; unwind 7
 c14_case!(c14_h_typed_ref_p7, ro, check_split_by_height, 7, 0, 0, 4, 5, |px| { TypedImageRef::new(PW as u32, PH as u32, &px).unwrap() });
-// @h c14_w_typed_ref_p2 | prop=C14 | tier=quick | t=1500 | mem=12 | flags=--no-assertion-reach-checks --no-memory-safety-checks --no-overflow-checks | enc=ImageView::split_by_width default (TypedCroppedImage::from_ref), TypedCroppedImage::iter_rows | bounds=symbolic: start 0..=7 and size 1..=7 of the band (invalid ones included); enumerated: parts=2, TypedImageRef 4x5; tagged pixels; unwind 8
+// @h c14_w_typed_ref_p2 | prop=C14 | tier=quick | t=1500 | mem=12 | flags=--no-assertion-reach-checks --no-memory-safety-checks --no-overflow-checks | enc=ImageView::split_by_width default (TypedCroppedImage::from_ref), TypedCroppedImage::iter_rows | bounds=symbolic: start 0..=7 and size 1..=7 of the band (invalid ones included); enumerated: parts=2, TypedImageRef 4x5; tagged pixels; unwind 7
 c14_case!(c14_w_typed_ref_p2, ro, check_split_by_width, 2, 0, 0, 4, 5, |px| { TypedImageRef::new(PW as u32, PH as u32, &px).unwrap() });
-// @h c14_w_typed_ref_p3 | prop=C14 | tier=quick | t=1500 | mem=12 | flags=--no-assertion-reach-checks --no-memory-safety-checks --no-overflow-checks | enc=ImageView::split_by_width default (TypedCroppedImage::from_ref), TypedCroppedImage::iter_rows | bounds=symbolic: start 0..=7 and size 1..=7 of the band (invalid ones included); enumerated: parts=3, TypedImageRef 4x5; tagged pixels; unwind 8
+// @h c14_w_typed_ref_p3 | prop=C14 | tier=quick | t=1500 | mem=12 | flags=--no-assertion-reach-checks --no-memory-safety-checks --no-overflow-checks | enc=ImageView::split_by_width default (TypedCroppedImage::from_ref), TypedCroppedImage::iter_rows | bounds=symbolic: start 0..=7 and size 1..=7 of the band (invalid ones included); enumerated: parts=3, TypedImageRef 4x5; tagged pixels; unwind 7
 c14_case!(c14_w_typed_ref_p3, ro, check_split_by_width, 3, 0, 0, 4, 5, |px| { TypedImageRef::new(PW as u32, PH as u32, &px).unwrap() });
-// @h c14_w_typed_ref_p1 | prop=C14 | tier=thorough | t=1500 | mem=12 | flags=--no-assertion-reach-checks --no-memory-safety-checks --no-overflow-checks | enc=ImageView::split_by_width default (TypedCroppedImage::from_ref), TypedCroppedImage::iter_rows | bounds=symbolic: start 0..=7 and size 1..=7 of the band (invalid ones included); enumerated: parts=1, TypedImageRef 4x5; tagged pixels; unwind 8
+// @h c14_w_typed_ref_p1 | prop=C14 | tier=thorough | t=1500 | mem=12 | flags=--no-assertion-reach-checks --no-memory-safety-checks --no-overflow-checks | enc=ImageView::split_by_width default (TypedCroppedImage::from_ref), TypedCroppedImage::iter_rows | bounds=symbolic: start 0..=7 and size 1..=7 of the band (invalid ones included); enumerated: parts=1, TypedImageRef 4x5; tagged pixels; unwind 7
 c14_case!(c14_w_typed_ref_p1, ro, check_split_by_width, 1, 0, 0, 4, 5, |px| { TypedImageRef::new(PW as u32, PH as u32, &px).unwrap() });
-// @h c14_w_typed_ref_p4 | prop=C14 | tier=thorough | t=1500 | mem=12 | flags=--no-assertion-reach-checks --no-memory-safety-checks --no-overflow-checks | enc=ImageView::split_by_width default (TypedCroppedImage::from_ref), TypedCroppedImage::iter_rows | bounds=symbolic: start 0..=7 and size 1..=7 of the band (invalid ones included); enumerated: parts=4, TypedImageRef 4x5; tagged pixels; unwind 8
+// @h c14_w_typed_ref_p4 | prop=C14 | tier=thorough | t=1500 | mem=12 | flags=--no-assertion-reach-checks --no-memory-safety-checks --no-overflow-checks | enc=ImageView::split_by_width default (TypedCroppedImage::from_ref), TypedCroppedImage::iter_rows | bounds=symbolic: start 0..=7 and size 1..=7 of the band (invalid ones included); enumerated: parts=4, TypedImageRef 4x5; tagged pixels; unwind 7
 c14_case!(c14_w_typed_ref_p4, ro, check_split_by_width, 4, 0, 0, 4, 5, |px| { TypedImageRef::new(PW as u32, PH as u32, &px).unwrap() });
-// @h c14_w_typed_ref_p6 | prop=C14 | tier=thorough | t=1500 | mem=12 | flags=--no-assertion-reach-checks --no-memory-safety-checks --no-overflow-checks | enc=ImageView::split_by_width default (TypedCroppedImage::from_ref), TypedCroppedImage::iter_rows | bounds=symbolic: start 0..=7 and size 1..=7 of the band (invalid ones included); enumerated: parts=6, TypedImageRef 4x5; tagged pixels; unwind 8
+// @h c14_w_typed_ref_p6 | prop=C14 | tier=thorough | t=1500 | mem=12 | flags=--no-assertion-reach-checks --no-memory-safety-checks --no-overflow-checks | enc=ImageView::split_by_width default (TypedCroppedImage::from_ref), TypedCroppedImage::iter_rows | bounds=symbolic: start 0..=7 and size 1..=7 of the band (invalid ones included); enumerated: parts=6, TypedImageRef 4x5; tagged pixels; unwind 7
 c14_case!(c14_w_typed_ref_p6, ro, check_split_by_width, 6, 0, 0, 4, 5, |px| { TypedImageRef::new(PW as u32, PH as u32, &px).unwrap() });
-// @h c14_h_typed_image_p2 | prop=C14 | tier=thorough | t=1500 | mem=12 | flags=--no-assertion-reach-checks --no-memory-safety-checks --no-overflow-checks | enc=TypedImage::split_by_height | bounds=symbolic: start 0..=8 and size 1..=8 of the band (invalid ones included); enumerated: parts=2, TypedImage 4x5; tagged pixels; unwind 8
+// @h c14_h_typed_image_p2 | prop=C14 | tier=thorough | t=1500 | mem=12 | flags=--no-assertion-reach-checks --no-memory-safety-checks --no-overflow-checks | enc=TypedImage::split_by_height | bounds=symbolic: start 0..=8 and size 1..=8 of the band (invalid ones included); enumerated: parts=2, TypedImage 4x5; tagged pixels; unwind 7
 c14_case!(c14_h_typed_image_p2, ro, check_split_by_height, 2, 0, 0, 4, 5, |px| { TypedImage::from_pixels_slice(PW as u32, PH as u32, &mut px).unwrap() });
-// @h c14_h_typed_image_p3 | prop=C14 | tier=thorough | t=1500 | mem=12 | flags=--no-assertion-reach-checks --no-memory-safety-checks --no-overflow-checks | enc=TypedImage::split_by_height | bounds=symbolic: start 0..=8 and size 1..=8 of the band (invalid ones included); enumerated: parts=3, TypedImage 4x5; tagged pixels; unwind 8
+// @h c14_h_typed_image_p3 | prop=C14 | tier=thorough | t=1500 | mem=12 | flags=--no-assertion-reach-checks --no-memory-safety-checks --no-overflow-checks | enc=TypedImage::split_by_height | bounds=symbolic: start 0..=8 and size 1..=8 of the band (invalid ones included); enumerated: parts=3, TypedImage 4x5; tagged pixels; unwind 7
 c14_case!(c14_h_typed_image_p3, ro, check_split_by_height, 3, 0, 0, 4, 5, |px| { TypedImage::from_pixels_slice(PW as u32, PH as u32, &mut px).unwrap() });
 
 macro_rules! c14_cropped {
     ($name:ident, $fn:ident, $parts:expr, ($l:expr, $t:expr, $vw:expr, $vh:expr)) => {
         #[kani::proof]
-        #[kani::unwind(8)]
+        #[kani::unwind(7)]
         pub fn $name() {
             let px = tagged_parent();
             let parent = TypedImageRef::new(PW as u32, PH as u32, &px).unwrap();
@@ -286,7 +286,7 @@ macro_rules! c14_cropped {
 macro_rules! c14_nested {
     ($name:ident, $fn:ident, $parts:expr) => {
         #[kani::proof]
-        #[kani::unwind(8)]
+        #[kani::unwind(7)]
         pub fn $name() {
             let px = tagged_parent();
             let parent = TypedImageRef::new(PW as u32, PH as u32, &px).unwrap();
@@ -299,7 +299,7 @@ macro_rules! c14_nested {
 macro_rules! c14_mut {
     ($name:ident, $fn:ident, $by_height:expr, $parts:expr, whole) => {
         #[kani::proof]
-        #[kani::unwind(8)]
+        #[kani::unwind(7)]
         pub fn $name() {
             let mut px = tagged_parent();
             let r = {
@@ -312,7 +312,7 @@ macro_rules! c14_mut {
     };
     ($name:ident, $fn:ident, $by_height:expr, $parts:expr, ($l:expr, $t:expr, $vw:expr, $vh:expr)) => {
         #[kani::proof]
-        #[kani::unwind(8)]
+        #[kani::unwind(7)]
         pub fn $name() {
             let mut px = tagged_parent();
             let r = {
@@ -326,63 +326,63 @@ macro_rules! c14_mut {
     };
 }
 
-// @h c14_h_cropped_interior_p1 | prop=C14 | tier=quick | t=1800 | mem=12 | flags=--no-assertion-reach-checks --no-memory-safety-checks --no-overflow-checks | enc=TypedCroppedImage::split_by_height (offset composition) -> TypedImageRef::split_by_height | bounds=symbolic: start 0..=6, size 1..=6; enumerated: parts=1, TypedCroppedImage 2x3 at (1,2) of a 4x5 TypedImageRef; unwind 8
+// @h c14_h_cropped_interior_p1 | prop=C14 | tier=quick | t=2400 | mem=18 | flags=--no-assertion-reach-checks --no-memory-safety-checks --no-overflow-checks | enc=TypedCroppedImage::split_by_height (offset composition) -> TypedImageRef::split_by_height | bounds=symbolic: start 0..=6, size 1..=6; enumerated: parts=1, TypedCroppedImage 2x3 at (1,2) of a 4x5 TypedImageRef; unwind 7
 c14_cropped!(c14_h_cropped_interior_p1, check_split_by_height, 1, (1, 2, 2, 3));
-// @h c14_w_cropped_interior_p1 | prop=C14 | tier=quick | t=1800 | mem=12 | flags=--no-assertion-reach-checks --no-memory-safety-checks --no-overflow-checks | enc=TypedCroppedImage::split_by_width (offset composition) -> ImageView::split_by_width default | bounds=symbolic: start 0..=5, size 1..=5; enumerated: parts=1, TypedCroppedImage 2x3 at (1,2) of a 4x5 TypedImageRef; unwind 8
+// @h c14_w_cropped_interior_p1 | prop=C14 | tier=quick | t=2400 | mem=18 | flags=--no-assertion-reach-checks --no-memory-safety-checks --no-overflow-checks | enc=TypedCroppedImage::split_by_width (offset composition) -> ImageView::split_by_width default | bounds=symbolic: start 0..=5, size 1..=5; enumerated: parts=1, TypedCroppedImage 2x3 at (1,2) of a 4x5 TypedImageRef; unwind 7
 c14_cropped!(c14_w_cropped_interior_p1, check_split_by_width, 1, (1, 2, 2, 3));
-// @h c14_h_cropped_interior_p2 | prop=C14 | tier=quick | t=1800 | mem=12 | flags=--no-assertion-reach-checks --no-memory-safety-checks --no-overflow-checks | enc=TypedCroppedImage::split_by_height (offset composition) -> TypedImageRef::split_by_height | bounds=symbolic: start 0..=6, size 1..=6; enumerated: parts=2, TypedCroppedImage 2x3 at (1,2) of a 4x5 TypedImageRef; unwind 8
+// @h c14_h_cropped_interior_p2 | prop=C14 | tier=quick | t=2400 | mem=18 | flags=--no-assertion-reach-checks --no-memory-safety-checks --no-overflow-checks | enc=TypedCroppedImage::split_by_height (offset composition) -> TypedImageRef::split_by_height | bounds=symbolic: start 0..=6, size 1..=6; enumerated: parts=2, TypedCroppedImage 2x3 at (1,2) of a 4x5 TypedImageRef; unwind 7
 c14_cropped!(c14_h_cropped_interior_p2, check_split_by_height, 2, (1, 2, 2, 3));
-// @h c14_w_cropped_interior_p2 | prop=C14 | tier=quick | t=1800 | mem=12 | flags=--no-assertion-reach-checks --no-memory-safety-checks --no-overflow-checks | enc=TypedCroppedImage::split_by_width (offset composition) -> ImageView::split_by_width default | bounds=symbolic: start 0..=5, size 1..=5; enumerated: parts=2, TypedCroppedImage 2x3 at (1,2) of a 4x5 TypedImageRef; unwind 8
+// @h c14_w_cropped_interior_p2 | prop=C14 | tier=quick | t=2400 | mem=18 | flags=--no-assertion-reach-checks --no-memory-safety-checks --no-overflow-checks | enc=TypedCroppedImage::split_by_width (offset composition) -> ImageView::split_by_width default | bounds=symbolic: start 0..=5, size 1..=5; enumerated: parts=2, TypedCroppedImage 2x3 at (1,2) of a 4x5 TypedImageRef; unwind 7
 c14_cropped!(c14_w_cropped_interior_p2, check_split_by_width, 2, (1, 2, 2, 3));
-// @h c14_h_cropped_interior_p3 | prop=C14 | tier=thorough | t=1800 | mem=12 | flags=--no-assertion-reach-checks --no-memory-safety-checks --no-overflow-checks | enc=TypedCroppedImage::split_by_height (offset composition) -> TypedImageRef::split_by_height | bounds=symbolic: start 0..=6, size 1..=6; enumerated: parts=3, TypedCroppedImage 2x3 at (1,2) of a 4x5 TypedImageRef; unwind 8
+// @h c14_h_cropped_interior_p3 | prop=C14 | tier=thorough | t=2400 | mem=18 | flags=--no-assertion-reach-checks --no-memory-safety-checks --no-overflow-checks | enc=TypedCroppedImage::split_by_height (offset composition) -> TypedImageRef::split_by_height | bounds=symbolic: start 0..=6, size 1..=6; enumerated: parts=3, TypedCroppedImage 2x3 at (1,2) of a 4x5 TypedImageRef; unwind 7
 c14_cropped!(c14_h_cropped_interior_p3, check_split_by_height, 3, (1, 2, 2, 3));
-// @h c14_w_cropped_interior_p3 | prop=C14 | tier=thorough | t=1800 | mem=12 | flags=--no-assertion-reach-checks --no-memory-safety-checks --no-overflow-checks | enc=TypedCroppedImage::split_by_width (offset composition) -> ImageView::split_by_width default | bounds=symbolic: start 0..=5, size 1..=5; enumerated: parts=3, TypedCroppedImage 2x3 at (1,2) of a 4x5 TypedImageRef; unwind 8
+// @h c14_w_cropped_interior_p3 | prop=C14 | tier=thorough | t=2400 | mem=18 | flags=--no-assertion-reach-checks --no-memory-safety-checks --no-overflow-checks | enc=TypedCroppedImage::split_by_width (offset composition) -> ImageView::split_by_width default | bounds=symbolic: start 0..=5, size 1..=5; enumerated: parts=3, TypedCroppedImage 2x3 at (1,2) of a 4x5 TypedImageRef; unwind 7
 c14_cropped!(c14_w_cropped_interior_p3, check_split_by_width, 3, (1, 2, 2, 3));
-// @h c14_h_cropped_interior_p4 | prop=C14 | tier=thorough | t=1800 | mem=12 | flags=--no-assertion-reach-checks --no-memory-safety-checks --no-overflow-checks | enc=TypedCroppedImage::split_by_height (offset composition) -> TypedImageRef::split_by_height | bounds=symbolic: start 0..=6, size 1..=6; enumerated: parts=4, TypedCroppedImage 2x3 at (1,2) of a 4x5 TypedImageRef; unwind 8
+// @h c14_h_cropped_interior_p4 | prop=C14 | tier=thorough | t=2400 | mem=18 | flags=--no-assertion-reach-checks --no-memory-safety-checks --no-overflow-checks | enc=TypedCroppedImage::split_by_height (offset composition) -> TypedImageRef::split_by_height | bounds=symbolic: start 0..=6, size 1..=6; enumerated: parts=4, TypedCroppedImage 2x3 at (1,2) of a 4x5 TypedImageRef; unwind 7
 c14_cropped!(c14_h_cropped_interior_p4, check_split_by_height, 4, (1, 2, 2, 3));
-// @h c14_w_cropped_interior_p4 | prop=C14 | tier=thorough | t=1800 | mem=12 | flags=--no-assertion-reach-checks --no-memory-safety-checks --no-overflow-checks | enc=TypedCroppedImage::split_by_width (offset composition) -> ImageView::split_by_width default | bounds=symbolic: start 0..=5, size 1..=5; enumerated: parts=4, TypedCroppedImage 2x3 at (1,2) of a 4x5 TypedImageRef; unwind 8
+// @h c14_w_cropped_interior_p4 | prop=C14 | tier=thorough | t=2400 | mem=18 | flags=--no-assertion-reach-checks --no-memory-safety-checks --no-overflow-checks | enc=TypedCroppedImage::split_by_width (offset composition) -> ImageView::split_by_width default | bounds=symbolic: start 0..=5, size 1..=5; enumerated: parts=4, TypedCroppedImage 2x3 at (1,2) of a 4x5 TypedImageRef; unwind 7
 c14_cropped!(c14_w_cropped_interior_p4, check_split_by_width, 4, (1, 2, 2, 3));
-// @h c14_h_cropped_flush_p1 | prop=C14 | tier=thorough | t=1800 | mem=12 | flags=--no-assertion-reach-checks --no-memory-safety-checks --no-overflow-checks | enc=TypedCroppedImage::split_by_height | bounds=symbolic: start, size; enumerated: parts=1, TypedCroppedImage 2x2 flush bottom-right (2,3) of a 4x5 parent; unwind 8
+// @h c14_h_cropped_flush_p1 | prop=C14 | tier=thorough | t=2400 | mem=18 | flags=--no-assertion-reach-checks --no-memory-safety-checks --no-overflow-checks | enc=TypedCroppedImage::split_by_height | bounds=symbolic: start, size; enumerated: parts=1, TypedCroppedImage 2x2 flush bottom-right (2,3) of a 4x5 parent; unwind 7
 c14_cropped!(c14_h_cropped_flush_p1, check_split_by_height, 1, (2, 3, 2, 2));
-// @h c14_h_nested_p1 | prop=C14 | tier=thorough | t=1800 | mem=12 | flags=--no-assertion-reach-checks --no-memory-safety-checks --no-overflow-checks | enc=TypedCroppedImage<TypedCroppedImage<..>>::split_by_height | bounds=symbolic: start, size; enumerated: parts=1, 2x2 view at (0,1) of a 3x4 view at (1,1) of the 4x5 parent; unwind 8
+// @h c14_h_nested_p1 | prop=C14 | tier=thorough | t=2400 | mem=18 | flags=--no-assertion-reach-checks --no-memory-safety-checks --no-overflow-checks | enc=TypedCroppedImage<TypedCroppedImage<..>>::split_by_height | bounds=symbolic: start, size; enumerated: parts=1, 2x2 view at (0,1) of a 3x4 view at (1,1) of the 4x5 parent; unwind 7
 c14_nested!(c14_h_nested_p1, check_split_by_height, 1);
-// @h c14_h_cropped_flush_p2 | prop=C14 | tier=thorough | t=1800 | mem=12 | flags=--no-assertion-reach-checks --no-memory-safety-checks --no-overflow-checks | enc=TypedCroppedImage::split_by_height | bounds=symbolic: start, size; enumerated: parts=2, TypedCroppedImage 2x2 flush bottom-right (2,3) of a 4x5 parent; unwind 8
+// @h c14_h_cropped_flush_p2 | prop=C14 | tier=thorough | t=2400 | mem=18 | flags=--no-assertion-reach-checks --no-memory-safety-checks --no-overflow-checks | enc=TypedCroppedImage::split_by_height | bounds=symbolic: start, size; enumerated: parts=2, TypedCroppedImage 2x2 flush bottom-right (2,3) of a 4x5 parent; unwind 7
 c14_cropped!(c14_h_cropped_flush_p2, check_split_by_height, 2, (2, 3, 2, 2));
-// @h c14_h_nested_p2 | prop=C14 | tier=thorough | t=1800 | mem=12 | flags=--no-assertion-reach-checks --no-memory-safety-checks --no-overflow-checks | enc=TypedCroppedImage<TypedCroppedImage<..>>::split_by_height | bounds=symbolic: start, size; enumerated: parts=2, 2x2 view at (0,1) of a 3x4 view at (1,1) of the 4x5 parent; unwind 8
+// @h c14_h_nested_p2 | prop=C14 | tier=thorough | t=2400 | mem=18 | flags=--no-assertion-reach-checks --no-memory-safety-checks --no-overflow-checks | enc=TypedCroppedImage<TypedCroppedImage<..>>::split_by_height | bounds=symbolic: start, size; enumerated: parts=2, 2x2 view at (0,1) of a 3x4 view at (1,1) of the 4x5 parent; unwind 7
 c14_nested!(c14_h_nested_p2, check_split_by_height, 2);
-// @h c14_h_cropped_flush_p3 | prop=C14 | tier=thorough | t=1800 | mem=12 | flags=--no-assertion-reach-checks --no-memory-safety-checks --no-overflow-checks | enc=TypedCroppedImage::split_by_height | bounds=symbolic: start, size; enumerated: parts=3, TypedCroppedImage 2x2 flush bottom-right (2,3) of a 4x5 parent; unwind 8
+// @h c14_h_cropped_flush_p3 | prop=C14 | tier=thorough | t=2400 | mem=18 | flags=--no-assertion-reach-checks --no-memory-safety-checks --no-overflow-checks | enc=TypedCroppedImage::split_by_height | bounds=symbolic: start, size; enumerated: parts=3, TypedCroppedImage 2x2 flush bottom-right (2,3) of a 4x5 parent; unwind 7
 c14_cropped!(c14_h_cropped_flush_p3, check_split_by_height, 3, (2, 3, 2, 2));
-// @h c14_h_nested_p3 | prop=C14 | tier=thorough | t=1800 | mem=12 | flags=--no-assertion-reach-checks --no-memory-safety-checks --no-overflow-checks | enc=TypedCroppedImage<TypedCroppedImage<..>>::split_by_height | bounds=symbolic: start, size; enumerated: parts=3, 2x2 view at (0,1) of a 3x4 view at (1,1) of the 4x5 parent; unwind 8
+// @h c14_h_nested_p3 | prop=C14 | tier=thorough | t=2400 | mem=18 | flags=--no-assertion-reach-checks --no-memory-safety-checks --no-overflow-checks | enc=TypedCroppedImage<TypedCroppedImage<..>>::split_by_height | bounds=symbolic: start, size; enumerated: parts=3, 2x2 view at (0,1) of a 3x4 view at (1,1) of the 4x5 parent; unwind 7
 c14_nested!(c14_h_nested_p3, check_split_by_height, 3);
-// @h c14_hmut_typed_image_p2 | prop=C14 | tier=quick | t=1800 | mem=12 | flags=--no-assertion-reach-checks --no-memory-safety-checks --no-overflow-checks | enc=TypedImage::split_by_height_mut (split_at_mut specialisation), TypedImage::iter_rows_mut | bounds=symbolic: start 0..=8, size 1..=8; enumerated: parts=2, TypedImage 4x5; write-through check on the parent buffer; unwind 8
+// @h c14_hmut_typed_image_p2 | prop=C14 | tier=quick | t=1800 | mem=12 | flags=--no-assertion-reach-checks --no-memory-safety-checks --no-overflow-checks | enc=TypedImage::split_by_height_mut (split_at_mut specialisation), TypedImage::iter_rows_mut | bounds=symbolic: start 0..=8, size 1..=8; enumerated: parts=2, TypedImage 4x5; write-through check on the parent buffer; unwind 7
 c14_mut!(c14_hmut_typed_image_p2, check_split_by_height_mut, true, 2, whole);
-// @h c14_wmut_typed_image_p2 | prop=C14 | tier=quick | t=1800 | mem=12 | flags=--no-assertion-reach-checks --no-memory-safety-checks --no-overflow-checks | enc=ImageViewMut::split_by_width_mut default (UnsafeImageMut + TypedCroppedImageMut) | bounds=symbolic: start 0..=7, size 1..=7; enumerated: parts=2, TypedImage 4x5; write-through check on the parent buffer; unwind 8
+// @h c14_wmut_typed_image_p2 | prop=C14 | tier=quick | t=1800 | mem=12 | flags=--no-assertion-reach-checks --no-memory-safety-checks --no-overflow-checks | enc=ImageViewMut::split_by_width_mut default (UnsafeImageMut + TypedCroppedImageMut) | bounds=symbolic: start 0..=7, size 1..=7; enumerated: parts=2, TypedImage 4x5; write-through check on the parent buffer; unwind 7
 c14_mut!(c14_wmut_typed_image_p2, check_split_by_width_mut, false, 2, whole);
-// @h c14_hmut_typed_image_p3 | prop=C14 | tier=quick | t=1800 | mem=12 | flags=--no-assertion-reach-checks --no-memory-safety-checks --no-overflow-checks | enc=TypedImage::split_by_height_mut (split_at_mut specialisation), TypedImage::iter_rows_mut | bounds=symbolic: start 0..=8, size 1..=8; enumerated: parts=3, TypedImage 4x5; write-through check on the parent buffer; unwind 8
+// @h c14_hmut_typed_image_p3 | prop=C14 | tier=quick | t=1800 | mem=12 | flags=--no-assertion-reach-checks --no-memory-safety-checks --no-overflow-checks | enc=TypedImage::split_by_height_mut (split_at_mut specialisation), TypedImage::iter_rows_mut | bounds=symbolic: start 0..=8, size 1..=8; enumerated: parts=3, TypedImage 4x5; write-through check on the parent buffer; unwind 7
 c14_mut!(c14_hmut_typed_image_p3, check_split_by_height_mut, true, 3, whole);
-// @h c14_wmut_typed_image_p3 | prop=C14 | tier=quick | t=1800 | mem=12 | flags=--no-assertion-reach-checks --no-memory-safety-checks --no-overflow-checks | enc=ImageViewMut::split_by_width_mut default (UnsafeImageMut + TypedCroppedImageMut) | bounds=symbolic: start 0..=7, size 1..=7; enumerated: parts=3, TypedImage 4x5; write-through check on the parent buffer; unwind 8
+// @h c14_wmut_typed_image_p3 | prop=C14 | tier=quick | t=1800 | mem=12 | flags=--no-assertion-reach-checks --no-memory-safety-checks --no-overflow-checks | enc=ImageViewMut::split_by_width_mut default (UnsafeImageMut + TypedCroppedImageMut) | bounds=symbolic: start 0..=7, size 1..=7; enumerated: parts=3, TypedImage 4x5; write-through check on the parent buffer; unwind 7
 c14_mut!(c14_wmut_typed_image_p3, check_split_by_width_mut, false, 3, whole);
-// @h c14_hmut_typed_image_p1 | prop=C14 | tier=thorough | t=1800 | mem=12 | flags=--no-assertion-reach-checks --no-memory-safety-checks --no-overflow-checks | enc=TypedImage::split_by_height_mut (split_at_mut specialisation), TypedImage::iter_rows_mut | bounds=symbolic: start 0..=8, size 1..=8; enumerated: parts=1, TypedImage 4x5; write-through check on the parent buffer; unwind 8
+// @h c14_hmut_typed_image_p1 | prop=C14 | tier=thorough | t=1800 | mem=12 | flags=--no-assertion-reach-checks --no-memory-safety-checks --no-overflow-checks | enc=TypedImage::split_by_height_mut (split_at_mut specialisation), TypedImage::iter_rows_mut | bounds=symbolic: start 0..=8, size 1..=8; enumerated: parts=1, TypedImage 4x5; write-through check on the parent buffer; unwind 7
 c14_mut!(c14_hmut_typed_image_p1, check_split_by_height_mut, true, 1, whole);
-// @h c14_wmut_typed_image_p1 | prop=C14 | tier=thorough | t=1800 | mem=12 | flags=--no-assertion-reach-checks --no-memory-safety-checks --no-overflow-checks | enc=ImageViewMut::split_by_width_mut default (UnsafeImageMut + TypedCroppedImageMut) | bounds=symbolic: start 0..=7, size 1..=7; enumerated: parts=1, TypedImage 4x5; write-through check on the parent buffer; unwind 8
+// @h c14_wmut_typed_image_p1 | prop=C14 | tier=thorough | t=1800 | mem=12 | flags=--no-assertion-reach-checks --no-memory-safety-checks --no-overflow-checks | enc=ImageViewMut::split_by_width_mut default (UnsafeImageMut + TypedCroppedImageMut) | bounds=symbolic: start 0..=7, size 1..=7; enumerated: parts=1, TypedImage 4x5; write-through check on the parent buffer; unwind 7
 c14_mut!(c14_wmut_typed_image_p1, check_split_by_width_mut, false, 1, whole);
-// @h c14_hmut_typed_image_p4 | prop=C14 | tier=thorough | t=1800 | mem=12 | flags=--no-assertion-reach-checks --no-memory-safety-checks --no-overflow-checks | enc=TypedImage::split_by_height_mut (split_at_mut specialisation), TypedImage::iter_rows_mut | bounds=symbolic: start 0..=8, size 1..=8; enumerated: parts=4, TypedImage 4x5; write-through check on the parent buffer; unwind 8
+// @h c14_hmut_typed_image_p4 | prop=C14 | tier=thorough | t=1800 | mem=12 | flags=--no-assertion-reach-checks --no-memory-safety-checks --no-overflow-checks | enc=TypedImage::split_by_height_mut (split_at_mut specialisation), TypedImage::iter_rows_mut | bounds=symbolic: start 0..=8, size 1..=8; enumerated: parts=4, TypedImage 4x5; write-through check on the parent buffer; unwind 7
 c14_mut!(c14_hmut_typed_image_p4, check_split_by_height_mut, true, 4, whole);
-// @h c14_wmut_typed_image_p4 | prop=C14 | tier=thorough | t=1800 | mem=12 | flags=--no-assertion-reach-checks --no-memory-safety-checks --no-overflow-checks | enc=ImageViewMut::split_by_width_mut default (UnsafeImageMut + TypedCroppedImageMut) | bounds=symbolic: start 0..=7, size 1..=7; enumerated: parts=4, TypedImage 4x5; write-through check on the parent buffer; unwind 8
+// @h c14_wmut_typed_image_p4 | prop=C14 | tier=thorough | t=1800 | mem=12 | flags=--no-assertion-reach-checks --no-memory-safety-checks --no-overflow-checks | enc=ImageViewMut::split_by_width_mut default (UnsafeImageMut + TypedCroppedImageMut) | bounds=symbolic: start 0..=7, size 1..=7; enumerated: parts=4, TypedImage 4x5; write-through check on the parent buffer; unwind 7
 c14_mut!(c14_wmut_typed_image_p4, check_split_by_width_mut, false, 4, whole);
-// @h c14_hmut_typed_image_p6 | prop=C14 | tier=thorough | t=1800 | mem=12 | flags=--no-assertion-reach-checks --no-memory-safety-checks --no-overflow-checks | enc=TypedImage::split_by_height_mut (split_at_mut specialisation), TypedImage::iter_rows_mut | bounds=symbolic: start 0..=8, size 1..=8; enumerated: parts=6, TypedImage 4x5; write-through check on the parent buffer; unwind 8
+// @h c14_hmut_typed_image_p6 | prop=C14 | tier=thorough | t=1800 | mem=12 | flags=--no-assertion-reach-checks --no-memory-safety-checks --no-overflow-checks | enc=TypedImage::split_by_height_mut (split_at_mut specialisation), TypedImage::iter_rows_mut | bounds=symbolic: start 0..=8, size 1..=8; enumerated: parts=6, TypedImage 4x5; write-through check on the parent buffer; unwind 7
 c14_mut!(c14_hmut_typed_image_p6, check_split_by_height_mut, true, 6, whole);
-// @h c14_wmut_typed_image_p6 | prop=C14 | tier=thorough | t=1800 | mem=12 | flags=--no-assertion-reach-checks --no-memory-safety-checks --no-overflow-checks | enc=ImageViewMut::split_by_width_mut default (UnsafeImageMut + TypedCroppedImageMut) | bounds=symbolic: start 0..=7, size 1..=7; enumerated: parts=6, TypedImage 4x5; write-through check on the parent buffer; unwind 8
+// @h c14_wmut_typed_image_p6 | prop=C14 | tier=thorough | t=1800 | mem=12 | flags=--no-assertion-reach-checks --no-memory-safety-checks --no-overflow-checks | enc=ImageViewMut::split_by_width_mut default (UnsafeImageMut + TypedCroppedImageMut) | bounds=symbolic: start 0..=7, size 1..=7; enumerated: parts=6, TypedImage 4x5; write-through check on the parent buffer; unwind 7
 c14_mut!(c14_wmut_typed_image_p6, check_split_by_width_mut, false, 6, whole);
-// @h c14_hmut_cropped_interior_p1 | prop=C14 | tier=quick | t=1800 | mem=12 | flags=--no-assertion-reach-checks --no-memory-safety-checks --no-overflow-checks | enc=TypedCroppedImageMut::split_by_height_mut -> TypedImage::split_by_height_mut | bounds=symbolic: start 0..=6, size 1..=6; enumerated: parts=1, TypedCroppedImageMut 2x3 at (1,2) of a 4x5 TypedImage; write-through check; unwind 8
+// @h c14_hmut_cropped_interior_p1 | prop=C14 | tier=quick | t=2400 | mem=18 | flags=--no-assertion-reach-checks --no-memory-safety-checks --no-overflow-checks | enc=TypedCroppedImageMut::split_by_height_mut -> TypedImage::split_by_height_mut | bounds=symbolic: start 0..=6, size 1..=6; enumerated: parts=1, TypedCroppedImageMut 2x3 at (1,2) of a 4x5 TypedImage; write-through check; unwind 7
 c14_mut!(c14_hmut_cropped_interior_p1, check_split_by_height_mut, true, 1, (1, 2, 2, 3));
-// @h c14_wmut_cropped_interior_p1 | prop=C14 | tier=quick | t=1800 | mem=12 | flags=--no-assertion-reach-checks --no-memory-safety-checks --no-overflow-checks | enc=TypedCroppedImageMut::split_by_width_mut -> ImageViewMut::split_by_width_mut default | bounds=symbolic: start 0..=5, size 1..=5; enumerated: parts=1, TypedCroppedImageMut 2x3 at (1,2) of a 4x5 TypedImage; write-through check; unwind 8
+// @h c14_wmut_cropped_interior_p1 | prop=C14 | tier=quick | t=2400 | mem=18 | flags=--no-assertion-reach-checks --no-memory-safety-checks --no-overflow-checks | enc=TypedCroppedImageMut::split_by_width_mut -> ImageViewMut::split_by_width_mut default | bounds=symbolic: start 0..=5, size 1..=5; enumerated: parts=1, TypedCroppedImageMut 2x3 at (1,2) of a 4x5 TypedImage; write-through check; unwind 7
 c14_mut!(c14_wmut_cropped_interior_p1, check_split_by_width_mut, false, 1, (1, 2, 2, 3));
-// @h c14_hmut_cropped_interior_p2 | prop=C14 | tier=quick | t=1800 | mem=12 | flags=--no-assertion-reach-checks --no-memory-safety-checks --no-overflow-checks | enc=TypedCroppedImageMut::split_by_height_mut -> TypedImage::split_by_height_mut | bounds=symbolic: start 0..=6, size 1..=6; enumerated: parts=2, TypedCroppedImageMut 2x3 at (1,2) of a 4x5 TypedImage; write-through check; unwind 8
+// @h c14_hmut_cropped_interior_p2 | prop=C14 | tier=quick | t=2400 | mem=18 | flags=--no-assertion-reach-checks --no-memory-safety-checks --no-overflow-checks | enc=TypedCroppedImageMut::split_by_height_mut -> TypedImage::split_by_height_mut | bounds=symbolic: start 0..=6, size 1..=6; enumerated: parts=2, TypedCroppedImageMut 2x3 at (1,2) of a 4x5 TypedImage; write-through check; unwind 7
 c14_mut!(c14_hmut_cropped_interior_p2, check_split_by_height_mut, true, 2, (1, 2, 2, 3));
-// @h c14_wmut_cropped_interior_p2 | prop=C14 | tier=quick | t=1800 | mem=12 | flags=--no-assertion-reach-checks --no-memory-safety-checks --no-overflow-checks | enc=TypedCroppedImageMut::split_by_width_mut -> ImageViewMut::split_by_width_mut default | bounds=symbolic: start 0..=5, size 1..=5; enumerated: parts=2, TypedCroppedImageMut 2x3 at (1,2) of a 4x5 TypedImage; write-through check; unwind 8
+// @h c14_wmut_cropped_interior_p2 | prop=C14 | tier=quick | t=2400 | mem=18 | flags=--no-assertion-reach-checks --no-memory-safety-checks --no-overflow-checks | enc=TypedCroppedImageMut::split_by_width_mut -> ImageViewMut::split_by_width_mut default | bounds=symbolic: start 0..=5, size 1..=5; enumerated: parts=2, TypedCroppedImageMut 2x3 at (1,2) of a 4x5 TypedImage; write-through check; unwind 7
 c14_mut!(c14_wmut_cropped_interior_p2, check_split_by_width_mut, false, 2, (1, 2, 2, 3));
-// @h c14_hmut_cropped_interior_p3 | prop=C14 | tier=thorough | t=1800 | mem=12 | flags=--no-assertion-reach-checks --no-memory-safety-checks --no-overflow-checks | enc=TypedCroppedImageMut::split_by_height_mut -> TypedImage::split_by_height_mut | bounds=symbolic: start 0..=6, size 1..=6; enumerated: parts=3, TypedCroppedImageMut 2x3 at (1,2) of a 4x5 TypedImage; write-through check; unwind 8
+// @h c14_hmut_cropped_interior_p3 | prop=C14 | tier=thorough | t=2400 | mem=18 | flags=--no-assertion-reach-checks --no-memory-safety-checks --no-overflow-checks | enc=TypedCroppedImageMut::split_by_height_mut -> TypedImage::split_by_height_mut | bounds=symbolic: start 0..=6, size 1..=6; enumerated: parts=3, TypedCroppedImageMut 2x3 at (1,2) of a 4x5 TypedImage; write-through check; unwind 7
 c14_mut!(c14_hmut_cropped_interior_p3, check_split_by_height_mut, true, 3, (1, 2, 2, 3));
-// @h c14_wmut_cropped_interior_p3 | prop=C14 | tier=thorough | t=1800 | mem=12 | flags=--no-assertion-reach-checks --no-memory-safety-checks --no-overflow-checks | enc=TypedCroppedImageMut::split_by_width_mut -> ImageViewMut::split_by_width_mut default | bounds=symbolic: start 0..=5, size 1..=5; enumerated: parts=3, TypedCroppedImageMut 2x3 at (1,2) of a 4x5 TypedImage; write-through check; unwind 8
+// @h c14_wmut_cropped_interior_p3 | prop=C14 | tier=thorough | t=2400 | mem=18 | flags=--no-assertion-reach-checks --no-memory-safety-checks --no-overflow-checks | enc=TypedCroppedImageMut::split_by_width_mut -> ImageViewMut::split_by_width_mut default | bounds=symbolic: start 0..=5, size 1..=5; enumerated: parts=3, TypedCroppedImageMut 2x3 at (1,2) of a 4x5 TypedImage; write-through check; unwind 7
 c14_mut!(c14_wmut_cropped_interior_p3, check_split_by_width_mut, false, 3, (1, 2, 2, 3));
